@@ -50,6 +50,21 @@ def row(deco, arg):
     def f(x):
         return x
 
+    if deco in ("requireOnChecker", "ensureOnChecker"):
+        # the function already carries an (explicitly enabled) contract checker
+        g = icontract.require(lambda x: True, enabled=True)(icontract.ensure(lambda result: True, enabled=True)(f))
+        sizes = lambda: (sum(len(grp) for grp in g.__preconditions__), len(g.__postconditions__))  # noqa: E731
+        before_sizes = sizes()
+        before = dict(vars(g))
+        if deco == "requireOnChecker":
+            r = icontract.require(lambda x: cond(), **kw)(g)
+        else:
+            r = icontract.ensure(lambda result: cond(), **kw)(g)
+        r(1)
+        after = dict(vars(g))
+        return {"same": r is g, "attrs_added": sorted(set(after) - set(before)),
+                "rebound": ["contract lists"] if sizes() != before_sizes else [], "cond_calls": calls["cond"]}
+
     before = dict(vars(f))
     if deco == "require":
         d = icontract.require(lambda x: cond(), **kw)
@@ -74,7 +89,7 @@ def row(deco, arg):
 def main():
     cases = json.load(open(sys.argv[1]))
     out = {"debug": __debug__, "SLOW": bool(icontract.SLOW), "optimize": sys.flags.optimize, "table": {}, "obs": []}
-    for deco in ("require", "ensure", "snapshot", "invariant"):
+    for deco in ("require", "ensure", "snapshot", "invariant", "requireOnChecker", "ensureOnChecker"):
         for arg in ("dflt", "explicitTrue", "explicitFalse", "slow"):
             try:
                 out["table"]["%s/%s" % (deco, arg)] = row(deco, arg)
